@@ -465,7 +465,8 @@ def baa_siblings(ctx):
                 if n.get("k") != "if" or "else" not in n:
                     continue
                 cnd = peel(n["cond"])
-                if not (cnd.get("k") == "binary" and cnd["op"] == "==" and peel(cnd["r"]).get("v") == 1 and "words" in show(cnd["l"]) and "len" in show(cnd["l"])):
+                cl_b, cl_ms = chain(resolve(cnd["l"])) if cnd.get("k") == "binary" else ({}, [])
+                if not (cnd.get("k") == "binary" and cnd["op"] == "==" and peel(cnd["r"]).get("v") == 1 and [m_[0] for m_ in cl_ms][-2:] == ["words", "len"]):
                     continue
                 t = [x for x in walk(n["then"]) if x.get("k") == "call" and "::arithmetic::" in (callee(x) or "")]
                 e = [x for x in walk(n["else"]) if x.get("k") == "call" and "::arithmetic::" in (callee(x) or "")]
